@@ -87,6 +87,8 @@ type cliConn struct {
 	local     *net.TCPAddr
 	remote    *net.TCPAddr
 	lastProg  time.Time
+	finErr    error // non-nil: the Read that returns the client's last bytes also returns this error
+	finGiven  bool
 }
 
 func newCli(steps []cstep, end int, local, remote *net.TCPAddr) *cliConn {
@@ -107,6 +109,9 @@ func (c *cliConn) Read(p []byte) (int, error) {
 		}
 		if len(p) == 0 {
 			return 0, nil
+		}
+		if c.finGiven {
+			return 0, c.finErr
 		}
 		if len(c.steps) == 0 {
 			if c.end == cStay {
@@ -136,6 +141,12 @@ func (c *cliConn) Read(p []byte) (int, error) {
 			c.steps = c.steps[1:]
 		}
 		c.lastProg = time.Now()
+		if len(c.steps) == 0 && c.finErr != nil && c.end != cStay {
+			// the last bytes and the end of the stream in one Read (n > 0, err != nil)
+			c.finGiven = true
+			c.eofGiven = true
+			return n, c.finErr
+		}
 		return n, nil
 	}
 }
@@ -234,6 +245,7 @@ type script struct {
 	BadPref bool
 	Slow    bool // the upstream consumes slowly (32 KiB per millisecond)
 	Bulk    bool // multi-MiB client stream: only its structure goes to Coq
+	Fin     int  // 0: EOF in a Read of its own; 1: the last bytes come with io.EOF; 9: with another error
 	HeadLen int  // bulk: the first HeadLen bytes of Stream are the literal head (ClientHello)
 }
 
@@ -432,6 +444,12 @@ func runOnce(s *script) observation {
 		steps = append(steps, cstep{wait: len(s.Reply)})
 	}
 	cli := newCli(steps, s.CEnd, s.Local, s.Remote)
+	switch s.Fin {
+	case 1:
+		cli.finErr = io.EOF
+	case 9:
+		cli.finErr = errors.New("read: connection reset by peer")
+	}
 	served := make(chan bool, 1)
 	var wsLn *oneListener
 	go func() {
@@ -939,7 +957,7 @@ func coqScript(s *script, o observation) string {
 	full := specUp(s)
 	lineLen := len(full) - len(s.Stream)
 	return vh.App("CTunnel", kindCoq[s.Kind], vh.Bool(s.PP), vh.Bool(is4), vh.HxS(ch), vh.HxS(sh), vh.HxS(cp), vh.HxS(sp),
-		coqStream(s.Stream, s.Lit), vh.List(segItems), vh.Bool(s.CWait), cendCoq[s.CEnd], trig,
+		coqStream(s.Stream, s.Lit), vh.List(segItems), vh.N(s.Fin), vh.Bool(s.CWait), cendCoq[s.CEnd], trig,
 		coqStream(s.Reply, s.RLit), vh.N(s.RSeg1), vh.N(s.WSHead), uendCoq[s.UEnd],
 		vh.Bool(o.Conn), describe(o.Up, full, lineLen+s.Lit), describe(o.Cl, s.Reply, s.RLit))
 }
@@ -973,6 +991,20 @@ func main() {
 
 	var scripts []*script
 	add := func(s *script, class string) {
+		// reads that return bytes together with an error: the client's last Read returns its last
+		// bytes and io.EOF (or, for a closing client, another error) at once
+		if s.Kind != kWS && s.CEnd != cStay && !s.CWait && len(s.Stream) > 0 {
+			switch r.Intn(5) {
+			case 0, 1:
+				s.Fin = 1
+				class += "+eof-with-last-bytes"
+			case 2:
+				if s.CEnd == cClose {
+					s.Fin = 9
+					class += "+error-with-last-bytes"
+				}
+			}
+		}
 		s.Class = class
 		scripts = append(scripts, s)
 	}
@@ -1141,7 +1173,7 @@ func main() {
 			replays++
 		}
 		sample := map[string]interface{}{"kind": kindName[s.Kind], "pxyproto": s.PP, "client": s.Remote.String(), "listener": s.Local.String(),
-			"stream_len": len(s.Stream), "segments": len(s.Segs), "first_segment": firstSeg(s), "cwait": s.CWait, "cend": cendCoq[s.CEnd],
+			"stream_len": len(s.Stream), "segments": len(s.Segs), "first_segment": firstSeg(s), "cwait": s.CWait, "cend": cendCoq[s.CEnd], "last_read_err": []string{"separate EOF", "EOF with data", "", "", "", "", "", "", "", "error with data"}[s.Fin],
 			"utrig": []string{"at-connect", "after-bytes " + strconv.Itoa(s.UN), "on-eof"}[s.UTrig], "reply_len": len(s.Reply), "rseg1": s.RSeg1, "uend": uendCoq[s.UEnd],
 			"upstream_got": len(o.Up), "client_got": len(o.Cl), "connected": o.Conn, "runs": results[i].runs}
 		id := run.Add(s.Class, coqScript(s, o), sample)
